@@ -186,8 +186,8 @@ def run(ctx):
             ctx.evaluations += 1
             ctx.nontriv(("conv", cin, k, groups, wq))
     for n in (1, 7, 31, 32, 33, 96, 128, 129, 160, 192, 200, 256, 288, 384, 1000):
-        for wq in ("qint4", "qint2"):
-            model = torch.nn.Sequential(torch.nn.Linear(n, 3))
+        for wq in ("qint4", "qint2", "qint8", "qfloat8"):
+            model = torch.nn.Sequential(torch.nn.Linear(n, 3 if n % 2 else 1))
             q.quantize(model, weights=q.qtypes[wq])
             try:
                 model(torch.randn(2, n))
@@ -202,6 +202,13 @@ def run(ctx):
     for l, e, gg, m in zip(lines, expect, got, meta):
         if e != gg and len(ctx.corr_disagreements) < 30:
             ctx.corr_disagreements.append({"case": l, "impl": e, "model": gg, "tag": m})
+        # the model's decision table is exactly the property's list of unsupported configurations (theorems C14_*):
+        # a disagreement on accept/reject is a concrete configuration on which the property fails
+        if m in ("quantize_weight", "SymmetricQuantizer", "quantize_activation", "AffineQuantizer") and e.split()[0] != gg.split()[0]:
+            if e.startswith("err ValueError") and gg.startswith("ok"):
+                ctx.spec_failures.append((f"C14:supported-configuration-rejected:{m}", {"config": l, "impl": e, "model": gg}))
+            elif e.startswith("ok") and gg.startswith("err"):
+                ctx.spec_failures.append((f"C14:unsupported-configuration-accepted:{m}", {"config": l, "impl": e, "model": gg}))
     ctx.sample({"line": lines[0], "impl": expect[0]})
     ctx.sample({"line": lines[len(lines) // 2], "impl": expect[len(lines) // 2]})
     wout = run_driver(wf_lines)
